@@ -8,6 +8,10 @@ import Frp.Props.C16
     * `race6`: if the regenerated lock facts contain the unsynchronised pre-check read, a fatal
       "concurrent map read and map write" is an allowed outcome (non-deterministic: relational);
     * `stun k`: if `Crash.discoverMayDie`, the send on the closed channel is an allowed outcome.
+    * `wconn` / `wstorm` (frames on work and visitor connections): `C16.frames_never_kill` — the answer is
+      "sent" / "done";
+    * `tear <gate> <n>`: the schedule the gate forces (`Crash.tearSchedule`) is run on the teardown model with
+      RegisterWorkConn as the regenerated channel facts say it is written (`C16.regRecover`).
   The property predicate `C16.holdsOn` is evaluated on the implementation's own observation: any
   crash / hang / failed watchdog is `prop=FAILS`, whether or not the model predicted it.
 -/
@@ -33,6 +37,17 @@ def crashMap6 (impl : String) : Bool :=
   impl = "crash:concurrent-map@pkg/nathole.(*Controller).HandleVisitor" ||
   impl = "crash:nil@pkg/nathole.(*Controller).HandleVisitor"
 def crashDiscover : String := "crash:closed-channel@pkg/nathole.(*discoverConn).readLoop"
+def crashRegister : String := "crash:closed-channel@server.(*Control).RegisterWorkConn"
+
+/-- the model's answer to a forced teardown schedule -/
+def tearModel (gate : String) (n : Nat) (impl : String) : String :=
+  if gate = "none" then
+    -- a free race: with the recover nothing can happen; without it the panic is an allowed outcome
+    if !C16.regRecover && impl = crashRegister then impl else "done"
+  else
+    match (trun ⟨C16.regRecover, false⟩ {} (tearSchedule gate n)).2 with
+    | .alive => "done"
+    | .processDies => crashRegister
 
 /-- the model's result; for the relational ops the implementation's result is accepted if allowed -/
 def modelOf (tok : List String) (impl : String) : Option String :=
@@ -65,6 +80,12 @@ def modelOf (tok : List String) (impl : String) : Option String :=
   | ["raw", _] => some "sent"
   | ["drop", _] => some "-"
   | ["storm", _, _, _] => some "done"
+  | ["wstorm", _, _, _] => some "done"
+  | ["wconn", _, _, _] => some "sent"
+  | ["tear", _, gate, n, _] =>
+    match n.toNat? with
+    | none => none
+    | some k => some (tearModel gate k impl)
   | ["cstorm", _, _] => some "done"
   | ["watch"] => some "ok"
   | ["stat"] => if impl.startsWith "stat:" then some impl else some "stat:"
